@@ -185,7 +185,7 @@ def gen_batches(rng, n, first_id, tickers):
         if defect:
             for _ in range(rng.choice([1, 1, 2])):
                 tx = rng.choice(txs)
-                k = rng.randint(0, 13)
+                k = rng.randint(0, 15)
                 if k == 0:
                     shape["bkeys"] = spoil(shape["bkeys"], fold)
                 elif k == 1:
@@ -216,6 +216,19 @@ def gen_batches(rng, n, first_id, tickers):
                     tx["tkeys"] = perm(["input", "transfers", "conversion"])
                 elif k == 13 and tx["trs"]:
                     rng.choice(tx["trs"])["addr"] = "BAD"
+                elif k in (14, 15):
+                    # outputs whose TRUE sum exceeds the input by exactly 2^64 (a 64-bit running total would wrap
+                    # back to the input), ordered so that every wrapped running total stays <= the input
+                    v = int("".join(map(str, tx["iamt"]["d"])))
+                    v = min(v, 2 ** 63 - 1)
+                    tx["iamt"] = amt(v)
+                    a = rng.randint(0, v)
+                    b = 2 ** 64 - 1 - rng.randint(0, min(a, 1000)) if a > 0 else 2 ** 64 - 1
+                    c = 2 ** 64 + v - a - b
+                    if 0 <= c < 2 ** 64 and a + b + c == v + 2 ** 64:
+                        tx["trs"] = [{"keys": ["address", "amount"], "addr": "B", "amt": amt(x)} for x in (a, b, c)]
+                        if "conversion" in tx["tkeys"]:
+                            tx["tkeys"] = [("transfers" if x == "conversion" else x) for x in tx["tkeys"]]
         out.append({"id": first_id + i, "shape": shape})
     return out
 
